@@ -87,6 +87,8 @@ static int readers_since_write[16][DTD_MAX_TILES];
 static unsigned char INFL[16][DTD_MAX_TILES][DTD_MAX_TASKS];   /* 0 not running, 1 reading, 2 writing */
 static int insert_done[DTD_MAX_TASKS];     /* insertion (by rank that runs it) has returned */
 
+static uint64_t INS_BEGIN[16][DTD_MAX_TASKS];
+static int WAR_R = -1, WAR_W = -1, WAR_T = -1;     /* (reader, writer, tile) of a write-after-read failure, for the shape tag */
 static int c3(void) { return PROP == 3; }
 static int c4(void) { return PROP == 4; }
 
@@ -95,6 +97,7 @@ void dtdh_event(int rank, int kind, long a, long b)
     (void)b;
     sim_hash_event(((uint64_t)rank << 56) ^ ((uint64_t)kind << 48) ^ (uint64_t)a);
     if (getenv("VERIF_MPI_TRACE")) fprintf(stderr, "[dtd t=%llu] rank %d event %d task %ld\n", (unsigned long long)sim_now(), rank, kind, a);
+    if (kind == 1 && rank >= 0 && rank < 16 && a >= 0 && a < DTD_MAX_TASKS) INS_BEGIN[rank][a] = sim_stamp();
     if (kind == 99) hx_fail(RES, "init-failed", "parsec_init returned NULL on rank %d", rank);
 }
 
@@ -127,6 +130,7 @@ int dtdh_body(int rank, int id, int nparams, int64_t **p)
             int qw = INFL[rank][t][q] == 2;
             if (!tw[j] && !qw) continue;            /* two readers may share */
             int earlier_is_reader = q < id ? !qw : !tw[j];
+            if (earlier_is_reader && !RES->vclass) { WAR_T = t; if (tw[j]) { WAR_R = q; WAR_W = id; } else { WAR_R = id; WAR_W = q; } }
             hx_fail(RES, earlier_is_reader ? "war-overlap" : "raw-overlap",
                     "task %d starts %s tile %d on rank %d while task %d (inserted %s it) is still %s it", id, tw[j] ? "writing" : "reading", t, rank, q,
                     q < id ? "before" : "after", qw ? "writing" : "reading");
@@ -161,6 +165,7 @@ int dtdh_body(int rank, int id, int nparams, int64_t **p)
                 for (int q = 0; q < e->nparams; q++) if (e->tile[q] == d->tile[i] && writes(e->mode[q]) && REF[j].out_val[q] == b) { if (j > id) later = j; else older = j; }
             }
             if (b == 1000 * (int64_t)(d->tile[i] + 1)) older = -2;
+            if (later >= 0 && !RES->vclass) { WAR_R = id; WAR_W = later; WAR_T = d->tile[i]; }
             if (later >= 0)
                 hx_fail(RES, "war-violation", "task %d param %d (tile %d) read %lld = the value written by LATER-inserted task %d; sequential execution gives %lld", id, i, d->tile[i], (long long)b, later, (long long)REF[id].in_expect[i]);
             else if (older != -1)
@@ -422,6 +427,8 @@ static void run(const hx_plan_t *p, hx_result_t *res)
         if (f) { fwrite(&SH, sizeof(SH), 1, f); fclose(f); }
     }
     memset(OBS, 0, sizeof(OBS));
+    memset(INS_BEGIN, 0, sizeof(INS_BEGIN));
+    WAR_R = WAR_W = WAR_T = -1;
     memset(OBS_out, 0, sizeof(OBS_out));
     memset(inflight_w, 0, sizeof(inflight_w));
     memset(INFL, 0, sizeof(INFL));
@@ -470,6 +477,7 @@ static void run(const hx_plan_t *p, hx_result_t *res)
                         if (e->tile[b] != w->tile[a]) continue;
                         if (!writes(w->mode[a]) && !writes(e->mode[b])) continue;
                         if (OBS[i].begin < OBS[j].end) {
+                            if (!writes(e->mode[b]) && !res->vclass) { WAR_R = j; WAR_W = i; WAR_T = w->tile[a]; }
                             hx_fail(res, writes(e->mode[b]) ? "raw-order-violation" : "war-order-violation", "task %d (%s tile %d) began at stamp %llu before earlier-inserted task %d (%s) ended at %llu on rank %d",
                                     i, writes(w->mode[a]) ? "writes" : "reads", w->tile[a], (unsigned long long)OBS[i].begin, j, writes(e->mode[b]) ? "writes" : "reads",
                                     (unsigned long long)OBS[j].end, OBS[i].rank);
@@ -496,6 +504,29 @@ static void run(const hx_plan_t *p, hx_result_t *res)
         }
     }
     for (int k = 0; k < SH.nranks && !res->vclass; k++) if (!SH.rank_done[k]) hx_fail(res, "rank-not-finished", "rank %d did not reach the end of its program", k);
+    if (res->vclass && !strncmp(res->vclass, "war-", 4) && WAR_R >= 0 && WAR_W >= 0) {
+        /* shape of the write-after-read failure (known findings are keyed by it):
+         *  remote-writer            the writer ran on another rank than the reader
+         *  earlier-reader-completed an earlier reader of the same tile version had already completed when the
+         *                           failing reader was inserted (the reader chain of the tile had been closed)
+         *  open-chain               neither: reader and writer were linked behind a still pending predecessor */
+        const char *tag = "open-chain";
+        int rr = OBS[WAR_R].rank;
+        if (OBS[WAR_W].count && OBS[WAR_W].rank != rr) tag = "remote-writer";
+        else {
+            for (int q = WAR_R - 1; q >= 0; q--) {
+                dtd_task_desc_t *e = &SH.tasks[q];
+                if (e->is_flush) continue;
+                int uses = 0, wr = 0;
+                for (int b = 0; b < e->nparams; b++) if (e->tile[b] == WAR_T) { uses = 1; if (writes(e->mode[b])) wr = 1; }
+                if (!uses) continue;
+                if (wr) break;                          /* an earlier version: stop */
+                if (OBS[q].end && INS_BEGIN[rr][WAR_R] && OBS[q].end < INS_BEGIN[rr][WAR_R]) { tag = "earlier-reader-completed"; break; }
+            }
+        }
+        size_t l = strlen(res->detail);
+        snprintf(res->detail + l, sizeof(res->detail) - l, " [%s]", tag);
+    }
 }
 
 static int plan_has_repeat(void)
